@@ -19,6 +19,7 @@ import (
 	"github.com/foxcpp/maddy/framework/address"
 	"github.com/foxcpp/maddy/framework/buffer"
 	"github.com/foxcpp/maddy/framework/dns"
+	"github.com/foxcpp/maddy/framework/exterrors"
 	"github.com/foxcpp/maddy/framework/log"
 	"github.com/foxcpp/maddy/framework/module"
 	"github.com/foxcpp/maddy/internal/modify"
@@ -29,16 +30,32 @@ import (
 // scripted per-recipient target
 type c09PTarget struct {
 	fail map[string]bool
+	// refuse: the target's AddRcpt refuses the k-th call (1-based) it sees for the address; 0 = every call
+	refuse map[string]int
+	last   *c09PDelivery
 }
 type c09PDelivery struct {
 	t     *c09PTarget
 	rcpts []string
+	asked map[string]int
+}
+
+func c09PRefused(refuse map[string]int, asked map[string]int, to string) error {
+	asked[to]++
+	if k, ok := refuse[to]; ok && (k == 0 || k == asked[to]) {
+		return &exterrors.SMTPError{Code: 550, EnhancedCode: exterrors.EnhancedCode{5, 1, 1}, Message: "no such mailbox (verif)"}
+	}
+	return nil
 }
 
 func (t *c09PTarget) Start(ctx context.Context, m *module.MsgMetadata, from string) (module.Delivery, error) {
-	return &c09PDelivery{t: t}, nil
+	t.last = &c09PDelivery{t: t, asked: map[string]int{}}
+	return t.last, nil
 }
 func (d *c09PDelivery) AddRcpt(ctx context.Context, to string, _ smtp.RcptOptions) error {
+	if err := c09PRefused(d.t.refuse, d.asked, to); err != nil {
+		return err
+	}
 	d.rcpts = append(d.rcpts, to)
 	return nil
 }
@@ -60,16 +77,20 @@ func (d *c09PDelivery) Commit(ctx context.Context) error { return nil }
 // scripted target WITHOUT per-recipient results (no BodyNonAtomic): Body succeeds or fails for the whole
 // delivery; the pipeline itself has to produce the per-recipient results of a failure
 type c09ATarget struct {
-	fail bool
+	fail   bool
+	refuse map[string]int
 }
 type c09ADelivery struct {
-	t *c09ATarget
+	t     *c09ATarget
+	asked map[string]int
 }
 
 func (t *c09ATarget) Start(ctx context.Context, m *module.MsgMetadata, from string) (module.Delivery, error) {
-	return &c09ADelivery{t: t}, nil
+	return &c09ADelivery{t: t, asked: map[string]int{}}, nil
 }
-func (d *c09ADelivery) AddRcpt(ctx context.Context, to string, _ smtp.RcptOptions) error { return nil }
+func (d *c09ADelivery) AddRcpt(ctx context.Context, to string, _ smtp.RcptOptions) error {
+	return c09PRefused(d.t.refuse, d.asked, to)
+}
 func (d *c09ADelivery) Body(ctx context.Context, h textproto.Header, b buffer.Buffer) error {
 	if d.t.fail {
 		return errors.New("storage unavailable")
@@ -384,6 +405,46 @@ func c09Pipe(out *vh.Out, op string) {
 			out.Stat("pipe.metadata-with-table-of-an-earlier-pipeline")
 		}
 	}
+	// refusals at AddRcpt time: X = by the per-recipient target, Y = by a SECOND target (without per-recipient
+	// results, Body succeeds) that every destination block gets next to it; entries <address token>/<k>: the k-th
+	// AddRcpt call the target sees for that address is refused (0 = every call)
+	// W<addr>,...: per-address destination blocks that REJECT (`destination <addr> { reject 550 }`; key = address.ForLookup,
+	// so every spelling of that mailbox): the pipeline itself refuses the effective address (the client-supplied one when
+	// the rewriting modifier sits in the destination block: the block is chosen before its modifiers run)
+	var rejectW map[string]bool
+	var refuseX, refuseY map[string]int
+	for _, tk := range toks[min(5, len(toks)):] {
+		if tk[0] == 'W' {
+			rejectW = map[string]bool{}
+			for _, e := range strings.Split(tk[1:], ",") {
+				k, _ := address.ForLookup(c09PAddr(e))
+				rejectW[k] = true
+			}
+			continue
+		}
+		if tk[0] != 'X' && tk[0] != 'Y' {
+			continue
+		}
+		m := map[string]int{}
+		if tk[1:] != "-" {
+			for _, e := range strings.Split(tk[1:], ",") {
+				g := strings.Split(e, "/")
+				if len(g) == 2 {
+					k, _ := strconv.Atoi(g[1])
+					m[c09PAddr(g[0])] = k
+					if _, ok := nameOf[c09PAddr(g[0])]; !ok {
+						nameOf[c09PAddr(g[0])] = c09PName(g[0])
+					}
+				}
+			}
+		}
+		if tk[0] == 'X' {
+			refuseX = m
+		} else {
+			refuseY = m
+		}
+	}
+	refusals := refuseX != nil || refuseY != nil || rejectW != nil
 	outerPlan := &c09PPlan{stage: "-", tgt: 'p', all: true}
 	innerPlan := &c09PPlan{stage: "-", tgt: 'p', all: true}
 	for _, tk := range toks[min(5, len(toks)):] {
@@ -410,6 +471,25 @@ func c09Pipe(out *vh.Out, op string) {
 		place = toks[4]
 	}
 	cfg, mkBlock, resolver := c09PBuild(rw, place, outerPlan.stage, "verif_rewrite")
+	var primary *c09PTarget
+	if refusals {
+		// (only generated without nested pipelines and stage plans)
+		primary = &c09PTarget{fail: fail, refuse: refuseX}
+		mk0 := mkBlock
+		mkBlock = func(t module.DeliveryTarget) *rcptBlock {
+			b := mk0(primary)
+			if refuseY != nil {
+				b.targets = append(b.targets, &c09ATarget{refuse: refuseY})
+			}
+			return b
+		}
+	}
+	for k := range rejectW {
+		cfg.defaultSource.perRcpt[k] = &rcptBlock{rejectErr: &exterrors.SMTPError{Code: 550, EnhancedCode: exterrors.EnhancedCode{5, 7, 1}, Message: "rejected by configuration (verif)"}}
+	}
+	if rejectW != nil {
+		out.Stat("pipe.refusals.rejecting-destination-block")
+	}
 	if outerPlan.tgt == 'p' || outerPlan.all {
 		cfg.defaultSource.defaultRcpt = mkBlock(mkTarget(outerPlan))
 	} else {
@@ -452,10 +532,42 @@ func c09Pipe(out *vh.Out, op string) {
 		out.Corr(op, "start-error")
 		return
 	}
+	// per AddRcpt call: was it accepted, and how many effective addresses did the per-recipient target take
+	// while it ran (ground truth read from the scripted target itself)
+	var addOK []bool
+	var tookDuring [][]string
 	for _, c := range clients {
-		if err := delivery.AddRcpt(ctx, c, smtp.RcptOptions{}); err != nil {
+		before := 0
+		if primary != nil && primary.last != nil {
+			before = len(primary.last.rcpts)
+		}
+		err := delivery.AddRcpt(ctx, c, smtp.RcptOptions{})
+		if err != nil && !refusals {
 			out.Corr(op, "addrcpt-error")
 			delivery.Abort(ctx)
+			return
+		}
+		addOK = append(addOK, err == nil)
+		var took []string
+		if primary != nil && primary.last != nil {
+			took = append(took, primary.last.rcpts[before:]...)
+		}
+		tookDuring = append(tookDuring, took)
+	}
+	if refusals {
+		any := false
+		for _, ok := range addOK {
+			any = any || ok
+		}
+		if !any {
+			// every RCPT TO was refused: the caller has nothing to send
+			delivery.Abort(ctx)
+			var adds []string
+			for range addOK {
+				adds = append(adds, "f")
+			}
+			out.Corr(op, "add:"+strings.Join(adds, ",")+" status:")
+			out.Stat("pipe.refusals.every-recipient-refused")
 			return
 		}
 	}
@@ -472,8 +584,16 @@ func c09Pipe(out *vh.Out, op string) {
 		canon = append(canon, name(s[:i])+s[i:])
 	}
 	sort.Strings(canon)
-	out.Corr(op, strings.Join(canon, ","))
 	shown := strings.Join(canon, ",")
+	if refusals {
+		var adds []string
+		for _, ok := range addOK {
+			adds = append(adds, map[bool]string{true: "o", false: "f"}[ok])
+		}
+		out.Corr(op, "add:"+strings.Join(adds, ",")+" status:"+shown)
+	} else {
+		out.Corr(op, shown)
+	}
 
 	isClient := map[string]bool{}
 	for _, c := range clients {
@@ -496,6 +616,69 @@ func c09Pipe(out *vh.Out, op string) {
 		if !isClient[k] {
 			out.Violation("C09/pipeline-status-under-effective-address", op, "result reported under "+name(k)+" ("+vh.HexRunes(k)+") which the client never supplied (as given); "+shown)
 		}
+	}
+	if refusals {
+		// Some AddRcpt calls were refused. Every ACCEPTED call is due one result per effective recipient, under the
+		// address the client supplied. A refused call may leave effective addresses behind in the target (it took
+		// them before another one - or the second target - refused; module.Delivery has no way to take them back):
+		// the target reports on those too, and IF such a result is reported it has to be under the client-supplied
+		// address as well (rule above) - it is allowed, not demanded.
+		// With a stage plan (S<stage>/p) the body stage fails for the whole delivery and the PIPELINE generates the
+		// results: a failure per entry of delivery.recipients (the client-supplied address, once per effective address
+		// the target took).
+		due := map[string][]string{}
+		left := map[string][]string{}
+		refusedCalls, leftovers := 0, 0
+		stageFails := outerPlan.stage != "-"
+		if stageFails {
+			out.Stat("pipe.refusals.with-pipeline-generated-statuses")
+		}
+		for i, c := range clients {
+			if addOK[i] {
+				for _, e := range effOf[c] {
+					due[c] = append(due[c], map[bool]string{true: "f", false: "o"}[fail[e] || stageFails])
+				}
+				continue
+			}
+			refusedCalls++
+			for _, e := range tookDuring[i] {
+				left[c] = append(left[c], map[bool]string{true: "f", false: "o"}[fail[e] || stageFails])
+				leftovers++
+			}
+			seenBefore := false
+			for j := 0; j < i; j++ {
+				seenBefore = seenBefore || (clients[j] == c && addOK[j])
+			}
+			switch {
+			case seenBefore:
+				out.Stat("pipe.refusals.repetition-of-an-accepted-recipient-refused")
+			case len(tookDuring[i]) > 0:
+				out.Stat("pipe.refusals.refused-after-the-target-took-some-of-its-addresses")
+			default:
+				out.Stat("pipe.refusals.refused-before-the-target-took-anything")
+			}
+			if len(effOf[c]) != 1 || effOf[c][0] != c {
+				out.Stat("pipe.refusals.refused-recipient-is-rewritten")
+			}
+		}
+		out.Stat(fmt.Sprintf("pipe.refusals.refused-calls-%d", min(refusedCalls, 3)))
+		out.Stat(fmt.Sprintf("pipe.refusals.leftover-addresses-%d", min(leftovers, 3)))
+		if refuseY != nil {
+			out.Stat("pipe.refusals.second-target-in-block")
+		}
+		nf := func(l []string) int { return strings.Count(strings.Join(l, ""), "f") }
+		for _, c := range distinct {
+			lo, hi := len(due[c]), len(due[c])+len(left[c])
+			if got[c] < lo || got[c] > hi {
+				out.Violation("C09/pipeline-result-count", op, fmt.Sprintf("client recipient %s: accepted calls are due %d results (+%d for addresses a refused call left in the target), %d results; %s", name(c), lo, hi-lo, got[c], shown))
+				continue
+			}
+			if f := nf(gotVals[c]); f < nf(due[c]) || f > nf(due[c])+nf(left[c]) || got[c]-f > (lo-nf(due[c]))+(hi-lo-nf(left[c])) {
+				out.Violation("C09/pipeline-result-of-another-recipient", op, fmt.Sprintf("client recipient %s: its effective recipients ended %v (+ left behind by refused calls %v), results reported under it %v; %s", name(c), due[c], left[c], gotVals[c], shown))
+			}
+		}
+		out.Stat("pipe.clients." + strconv.Itoa(len(clients)))
+		return
 	}
 	// each client-supplied recipient gets one result per FINAL effective recipient it was expanded to
 	// (through the outer and, when routed there, the nested pipeline), per AddRcpt call with it
@@ -1107,7 +1290,7 @@ func TestVerifC09Pipeline(t *testing.T) {
 		return
 	}
 	r := vh.NewRng(vh.Seed() + 929)
-	n := vh.N(150)
+	n := vh.N(150) * 2 // no network in here: a case costs microseconds
 	for i := 0; i < n; i++ {
 		nc := 1 + r.Intn(3)
 		next := 10
@@ -1231,6 +1414,140 @@ func TestVerifC09Pipeline(t *testing.T) {
 		// produce the results (tokens S = outer, I = nested pipeline)
 		place := r.Pick("g", "s", "r")
 		nestTok, planTok := "", ""
+		// refusals at AddRcpt time (tokens X / Y): the client repeats a recipient and the target refuses the
+		// repetition; a 1-to-N expansion of which the target takes one address and refuses another; a destination
+		// block with two targets of which the second refuses; refusals anywhere. The transaction goes on after a
+		// refused RCPT TO, as an SMTP session does.
+		refuseTok := ""
+		repetition := false
+		if !collision && !manyToOne && r.Chance(34) {
+			effsOf := func(p string) []string {
+				f := strings.Split(p, ":")
+				if f[1] == "" {
+					return []string{f[0]}
+				}
+				return strings.Split(f[1], "+")
+			}
+			var xs, ys []string
+			useY := r.Chance(30)
+			taken := map[string]bool{}
+			add := func(tok string, k int) {
+				toY := useY && r.Chance(60)
+				if taken[fmt.Sprint(toY, tok)] {
+					return
+				}
+				taken[fmt.Sprint(toY, tok)] = true
+				if toY {
+					ys = append(ys, fmt.Sprintf("%s/%d", tok, k))
+				} else {
+					xs = append(xs, fmt.Sprintf("%s/%d", tok, k))
+				}
+			}
+			repeat := func(k int) {
+				j := r.Intn(len(parts) + 1)
+				parts = append(parts, "")
+				copy(parts[j+1:], parts[j:])
+				if j <= k {
+					k++
+				}
+				parts[j] = parts[k]
+			}
+			// a part with a 1-to-N expansion (one is made if the list has none)
+			expansion := func() int {
+				k := -1
+				for _, i := range c09PPerm(r, len(parts)) {
+					if len(effsOf(parts[i])) >= 2 {
+						k = i
+					}
+				}
+				if k < 0 {
+					k = r.Intn(len(parts))
+					old := parts[k]
+					nw := strings.Split(old, ":")[0] + ":31+32"
+					if r.Chance(30) {
+						nw += "+33"
+						effs = append(effs, "33")
+					}
+					effs = append(effs, "31", "32")
+					for i := range parts {
+						if parts[i] == old {
+							parts[i] = nw
+						}
+					}
+				}
+				return k
+			}
+			switch r.Intn(5) {
+			case 0, 1:
+				k := r.Intn(len(parts))
+				cnt := 0
+				for _, p := range parts {
+					if p == parts[k] {
+						cnt++
+					}
+				}
+				if cnt < 2 {
+					repeat(k)
+				}
+				es := effsOf(parts[k])
+				add(es[r.Intn(len(es))], 2)
+				repetition = true
+			case 2, 3:
+				k := expansion()
+				es := effsOf(parts[k])
+				idx := 1 + r.Intn(len(es)-1)
+				if r.Chance(20) {
+					idx = 0
+				}
+				add(es[idx], r.Intn(2))
+				if r.Chance(30) {
+					repeat(k)
+				}
+			default:
+				es := effsOf(parts[r.Intn(len(parts))])
+				add(es[r.Intn(len(es))], r.Intn(3))
+			}
+			if r.Chance(30) {
+				es := effsOf(parts[r.Intn(len(parts))])
+				add(es[r.Intn(len(es))], r.Intn(3))
+			}
+			// a rejecting per-address destination block: for a later address of a 1-to-N expansion (the target took
+			// the earlier ones), or any effective address; with the modifier in the destination block the block is
+			// chosen by the client-supplied address
+			if r.Chance(40) {
+				var ws []string
+				if place != "r" && r.Chance(60) {
+					expansion()
+				}
+				for _, i := range c09PPerm(r, len(parts)) {
+					es := effsOf(parts[i])
+					if place == "r" {
+						if len(ws) == 0 && len(parts) > 1 {
+							ws = append(ws, strings.Split(parts[i], ":")[0])
+						}
+						continue
+					}
+					if len(es) >= 2 && len(ws) == 0 {
+						ws = append(ws, es[1+r.Intn(len(es)-1)])
+					}
+				}
+				if len(ws) == 0 || r.Chance(25) {
+					es := effsOf(parts[r.Intn(len(parts))])
+					if w := es[r.Intn(len(es))]; len(ws) == 0 || ws[0] != w {
+						ws = append(ws, w)
+					}
+				}
+				refuseTok += " W" + strings.Join(ws, ",")
+			}
+			if len(xs) > 0 {
+				refuseTok += " X" + strings.Join(xs, ",")
+			}
+			if len(ys) > 0 {
+				refuseTok += " Y" + strings.Join(ys, ",")
+			} else if useY {
+				refuseTok += " Y-"
+			}
+		}
 		lookToks := func() []string { // what the outer pipeline chooses destination blocks by
 			var l []string
 			seen := map[string]bool{}
@@ -1254,6 +1571,12 @@ func TestVerifC09Pipeline(t *testing.T) {
 		}
 		switch {
 		case collision:
+		case refuseTok != "":
+			nestTok = refuseTok
+			// the body stage fails as a whole: the results are the pipeline's own (one per entry of delivery.recipients)
+			if !strings.Contains(refuseTok, " Y") && (r.Chance(35) || (repetition && r.Chance(40))) {
+				planTok = " S" + c09PStages[r.Intn(len(c09PStages))] + "/p"
+			}
 		case manyToOne:
 			// every result of the recipients involved has to be generated by the pipeline
 			switch x := r.Intn(100); {
